@@ -119,7 +119,7 @@ def tree_unit(kind='db', config='base', mnt=2, **kw):
     return U('tree.cpp', config, defines=['DBKIND=%d' % DBKINDS[kind]], max_node_type=mnt, **kw)
 
 
-def tree_queries(kind='db', config='base', tier_all=None):
+def tree_queries(kind='db', config='base', tier_all=None, only=None, quick_set=None):
     qs = []
     sfx = '' if (kind, config) == ('db', 'base') else '-%s-%s' % (kind, config)
     u1 = tree_unit(kind, config, 1)
@@ -127,10 +127,12 @@ def tree_queries(kind='db', config='base', tier_all=None):
                     tier=tier_all or 'quick', about='from empty: insert(k1), insert(k2), get(q) with k1,k2,q fully symbolic 64-bit keys',
                     bounds={'symbolic_keys': 3, 'key_bits': 64, 'value_len': 1}))
     for name, (depth, mnt) in PRELUDES.items():
+        if only and name not in only:
+            continue
         u = tree_unit(kind, config, mnt)
         for op, what in (('get', 'get(k)'), ('ins', 'insert(k,v) then get(k) and get of every prelude key'), ('rem', 'remove(k) then get(k) and get of every prelude key')):
             h = '%s_%s' % (op, name)
-            tier = tier_all or ('quick' if h in QUICK_TREE else 'thorough')
+            tier = tier_all or ('quick' if h in (QUICK_TREE if quick_set is None else quick_set) else 'thorough')
             qs.append(Query(h + sfx, u, h, unwind=10, flags=['--slice-formula'], loop_bounds=[('::(get|insert|remove)_internal', depth + 1)], tier=tier,
                             about='concrete prelude "%s" then ONE %s with a fully symbolic 64-bit key (and value byte), compared with the map oracle' % (name, what),
                             bounds={'prelude': name, 'symbolic_ops': 1, 'key_bits': 64, 'value_len': 1, 'max_node_type': mnt}))
@@ -203,7 +205,7 @@ def scan_queries(kind='db', config='base', tier_all=None):
     qs.append(Query('scan-empty' + sfx, u, 'scan_empty', unwind=10, flags=['--slice-formula'], tier=T('quick'), about='all five scan forms on the empty index, symbolic bounds'))
     for name, d in SCAN_SHAPES.items():
         for mode, what in (('scan_fwd', 'scan(fwd)'), ('scan_rev', 'scan(rev)')):
-            qs.append(Query('%s_%s%s' % (mode, name, sfx), u, '%s_%s' % (mode, name), unwind=10, flags=['--slice-formula'], loop_bounds=scan_lb(d, SCAN_N[name]), tier=T('quick'),
+            qs.append(Query('%s_%s%s' % (mode, name, sfx), u, '%s_%s' % (mode, name), unwind=10, flags=['--slice-formula'], loop_bounds=scan_lb(d, SCAN_N[name]) if config == 'base' else [], tier=T('quick'),
                             about='%s over concrete tree "%s", symbolic halting position (1..n+1)' % (what, name), bounds={'tree': name, 'symbolic': 'halt position'}))
         for mode, what, heavy in (('seek_fwd', 'seek(k, fwd) on the iterator', 1), ('seek_rev', 'seek(k, rev)', 1), ('seek_fwd_step', 'seek(k,fwd) then next()', 2),
                                   ('seek_rev_step', 'seek(k,rev) then prior()', 2), ('from_fwd', 'scan_from(k, fwd) with symbolic halt', 3),
@@ -239,7 +241,31 @@ def c02():
                              'two inode levels (instance > 40 GB), byte-string keys at tree level, mutex/OLC instantiations (see C13/C16).')
 
 
-REGISTRY = {'C02': c02, 'C01': c01, 'C07': c07, 'C11': c11, 'C12': c12, 'C15': c15}
+def c16():
+    qs = []
+    QN = {'n4_find_3', 'n4_find_4', 'n4_add_3', 'n4_rem_4_1', 'n16_find_5', 'n16_find_16', 'n16_add_5', 'n16_add_15', 'n16_rem_16_7', 'n48_find', 'n48_rem_mid', 'n256_find', 'n256_add_remove'}
+    for cfg in ('sse', 'debug', 'ssedebug'):
+        for q in node_queries(cfg):
+            if q.tier == 'quick' and not (q.entry in QN and cfg in ('sse', 'debug')):
+                q.tier = 'thorough'
+            qs.append(q)
+    QT = {'get_leaf', 'get_i4_3', 'get_i16_5', 'get_2lvl', 'get_3lvl', 'ins_leaf', 'rem_leaf', 'rem_i4_2'}
+    for cfg in ('sse', 'debug', 'nostats', 'ssedebug'):
+        qs += tree_queries('db', cfg, quick_set=QT if cfg != 'ssedebug' else set())
+    for cfg in ('debug', 'sse'):
+        for q in scan_queries('db', cfg):
+            if not q.entry.startswith('scan_'):
+                q.tier = 'thorough'
+            qs.append(q)
+    return Check('C16', 'model_checking', qs,
+                 assumptions=['"identical across configurations" is concluded from "each configuration equals the same harness-side oracle for all inputs within the bounds"',
+                              'assertion-enabled IR: UNODB_DETAIL_ASSERT -> assert() -> __assert_fail is an assertion failure in the encoding, so a library assertion that can fire on valid use is reported',
+                              'spin-wait variants differ only in the spin hint, which the encoding treats as a no-op (single-threaded) - no separate query'],
+                 explanation='The C01/C02 node-level and tree-level queries are re-generated from the SSE4.1, assertion-enabled (-UNDEBUG), SSE4.1+assertions and statistics-free builds of the headers '
+                             'and must satisfy the same oracles with no library assertion reachable.')
+
+
+REGISTRY = {'C16': c16, 'C02': c02, 'C01': c01, 'C07': c07, 'C11': c11, 'C12': c12, 'C15': c15}
 
 
 def get(pid):
